@@ -50,6 +50,9 @@ pub fn exec(op: &str, a: &Value) -> Option<Value> {
             ZonedDateTime::from_str_with_provider(&s, dis(a), offopt(a), &p)
         }, |x| rel_of(x.epoch_nanoseconds().as_i128())),
         "Zoned.startOfDay" => run(|| zdt(&z, js::i(a, "t"))?.start_of_day_with_provider(&p), |x| rel_of_plain(x.epoch_nanoseconds().as_i128())),
+        "Zoned.withPlainTime" => run(|| { let sod = js::i(a, "sod");
+            let time = PlainTime::try_new((sod / 3600) as u8, (sod / 60 % 60) as u8, (sod % 60) as u8, (SUB_NS / 1_000_000) as u16, (SUB_NS / 1000 % 1000) as u16, (SUB_NS % 1000) as u16)?;
+            zdt(&z, js::i(a, "t"))?.with_plain_time_and_provider(time, &p) }, |x| rel_of(x.epoch_nanoseconds().as_i128())),
         "Zoned.hoursInDay" => run(|| zdt(&z, js::i(a, "t"))?.hours_in_day_with_provider(&p), |h| json!(*h)),
         "Zoned.add" => run(|| zdt(&z, js::i(a, "t"))?.add_with_provider(&arg_duration(&a["dur"])?, arg_ovf(a), &p), |x| rel_of(x.epoch_nanoseconds().as_i128())),
         "Zoned.subtract" => run(|| zdt(&z, js::i(a, "t"))?.subtract_with_provider(&arg_duration(&a["dur"])?, arg_ovf(a), &p), |x| rel_of(x.epoch_nanoseconds().as_i128())),
